@@ -28,6 +28,7 @@ type DownNode struct {
 	Workloads int    `json:"workloads"` // 0..3 recorded on this node
 	Lapse     string `json:"lapse"`     // "" keeps its heartbeat | "delete" | "expire"
 	NoStatus  int    `json:"no_status"` // how many of its workloads never reported a status
+	Unhealthy int    `json:"unhealthy"` // how many of the others last reported running=true, healthy=false
 }
 
 type DownCase struct {
@@ -52,6 +53,9 @@ func genC28(t *rapid.T) DownCase {
 			if !vt.Chance(t, "someWithoutStatus", 30) {
 				d.NoStatus = 0
 			}
+		}
+		if d.Workloads-d.NoStatus > 0 && vt.Chance(t, "someUnhealthy", 35) {
+			d.Unhealthy = rapid.IntRange(1, d.Workloads-d.NoStatus).Draw(t, "unhealthy")
 		}
 		c.Nodes = append(c.Nodes, d)
 	}
@@ -95,7 +99,7 @@ func runC28(x *vt.Ctx, c DownCase) *vt.Finding {
 			}
 			byNode[node] = append(byNode[node], m.WorkloadID)
 			if j >= d.NoStatus {
-				if _, err := w.Cal.SetWorkloadsStatus(ctx, []*types.StatusMeta{{ID: m.WorkloadID, Running: true, Healthy: true}}, nil); err != nil {
+				if _, err := w.Cal.SetWorkloadsStatus(ctx, []*types.StatusMeta{{ID: m.WorkloadID, Running: true, Healthy: j >= d.NoStatus+d.Unhealthy}}, nil); err != nil {
 					return vt.Failf("harness:set-status", "%v", err)
 				}
 			}
@@ -168,6 +172,11 @@ func runC28(x *vt.Ctx, c DownCase) *vt.Finding {
 	if len(pending) > 0 {
 		x.NonTrivial()
 	}
+	for _, d := range c.Nodes {
+		if d.Lapse != "" && d.Unhealthy > 0 {
+			x.Label("lapsed-node-with-unhealthy-workload")
+		}
+	}
 	deadline := time.Now().Add(30 * time.Second)
 	for len(pending) > 0 && time.Now().Before(deadline) {
 		for id := range pending {
@@ -206,7 +215,7 @@ func runC28(x *vt.Ctx, c DownCase) *vt.Finding {
 				continue
 			}
 			st, err := w.RawStore.GetWorkloadStatus(ctx, id)
-			if err != nil || st == nil || !st.Running || !st.Healthy {
+			if err != nil || st == nil || !st.Running || st.Healthy != (j >= d.NoStatus+d.Unhealthy) {
 				return vt.Failf("collateral:healthy-node-workload-marked-down", "workload %.10s on n%d (heartbeat intact) shows %+v, %v", id, i, st, err)
 			}
 		}
